@@ -186,7 +186,49 @@ def _could_resolve(w, wdefs, r, rdefs, depth):
     return True
 
 
+def _bad_utf8_somewhere(v):
+    """Does the value hold bytes that are not UTF-8?  (bytes read as string are then outside the rules)"""
+    v = v.v if isinstance(v, U) else v
+    if isinstance(v, (bytes, bytearray)):
+        try:
+            bytes(v).decode("utf-8")
+            return False
+        except UnicodeDecodeError:
+            return True
+    if isinstance(v, list):
+        return any(_bad_utf8_somewhere(x) for x in v)
+    if isinstance(v, dict):
+        return any(_bad_utf8_somewhere(x) for x in v.values())
+    return False
+
+
+def _reads_bytes_as_string(w, wdefs, r, rdefs, depth=0):
+    w, r = deref(w, wdefs), deref(r, rdefs)
+    if depth > 8:
+        return False
+    if w["k"] == "union":
+        return any(_reads_bytes_as_string(b, wdefs, r, rdefs, depth + 1) for b in w["branches"])
+    if r["k"] == "union":
+        return any(_reads_bytes_as_string(w, wdefs, b, rdefs, depth + 1) for b in r["branches"])
+    if w["k"] == "bytes" and r["k"] == "string":
+        return True
+    if w["k"] == r["k"] == "array":
+        return _reads_bytes_as_string(w["items"], wdefs, r["items"], rdefs, depth + 1)
+    if w["k"] == r["k"] == "map":
+        return _reads_bytes_as_string(w["values"], wdefs, r["values"], rdefs, depth + 1)
+    if w["k"] == r["k"] == "record":
+        wf = {f["name"]: f for f in w["fields"]}
+        for rf in r["fields"]:
+            cand = [wf.get(rf["name"])] + [wf.get(a) for a in rf.get("aliases", [])]
+            for c in cand:
+                if c is not None and _reads_bytes_as_string(c["type"], wdefs, rf["type"], rdefs, depth + 1):
+                    return True
+    return False
+
+
 def outcome(wnode, wdefs, rnode, rdefs, tv):
+    if _bad_utf8_somewhere(untag(tv)) and _reads_bytes_as_string(wnode, wdefs, rnode, rdefs):
+        return ("skip", None)
     flags = []
     try:
         v = resolve(wnode, wdefs, rnode, rdefs, tv, flags)
